@@ -480,9 +480,9 @@ fn run(opts: &Opts, acc: &mut Acc) {
 
     // (4) random operand pairs
     let cases = match (opts.tier, opts.is_dbg()) {
-        (Tier::Quick, _) => 20_000,
-        (Tier::Thorough, false) => 2_000_000,
-        (Tier::Thorough, true) => 300_000,
+        (Tier::Quick, _) => 400_000,
+        (Tier::Thorough, false) => 10_000_000,
+        (Tier::Thorough, true) => 1_000_000,
     };
     random_genomes(acc, opts, "random", cases, 40, |genome, a| {
         let mut g = G::new(genome);
